@@ -26,6 +26,7 @@ fn main() {
     match args[1].as_str() {
         "gen" => gen(&args[2], &args[3]),
         "witness" => std::process::exit(replay::main(&args[2..])),
+        "speccheck" => speccheck(&args[2]),
         _ => {
             eprintln!("unknown subcommand");
             std::process::exit(2);
@@ -105,4 +106,58 @@ pub fn jstr(s: &str) -> String {
     }
     o.push('"');
     o
+}
+
+/// Development aid: compares the by-definition leftmost tables with the implementation natively and
+/// prints every disagreement (used to validate reference.rs::leftmost_spec on the unchanged tree).
+fn speccheck(plan_path: &str) {
+    use daachorse::bytewise::verif as bv;
+    use daachorse::charwise::verif as cv;
+    let text = std::fs::read_to_string(plan_path).expect("plan readable");
+    let mut bad = 0;
+    let mut n = 0;
+    for e in plan::parse(&text) {
+        if !e.is_leftmost() {
+            continue;
+        }
+        let r = reference::compute(&e);
+        let Ok(t) = tables::build(&e, &r) else { continue };
+        n += 1;
+        let mut e32 = e.clone();
+        e32.vtype = "u32".into();
+        let inv: std::collections::BTreeMap<u32, usize> = t.idx.iter().enumerate().map(|(k, &s)| (s, k)).collect();
+        for k in 0..r.nodes.len() {
+            // outputs
+            let (opos, words) = match e.variant {
+                plan::Variant::Bytewise => (t.states[t.idx[k] as usize][2] >> 8, 0),
+                plan::Variant::Charwise => (t.states[t.idx[k] as usize][3], 0),
+            };
+            let _ = words;
+            let got = if opos == 0 { None } else { Some((t.outputs[opos as usize - 1].0.clone(), t.outputs[opos as usize - 1].1)) };
+            let want = r.lm_expect[k].map(|i| (t.pat_value_lits[i].clone(), r.bytelen[i]));
+            if got != want {
+                bad += 1;
+                println!("OUT {} node {:?}: got {:?} want {:?}", e.name, r.nodes[k], got, want);
+            }
+            for (a, &c) in r.alphabet.iter().enumerate() {
+                let tslot = match e.variant {
+                    plan::Variant::Bytewise => {
+                        let pma = tables::build_bw_pma::<u32>(&e32).unwrap();
+                        unsafe { bv::next_state_leftmost(&pma, t.idx[k], c as u8) }
+                    }
+                    plan::Variant::Charwise => {
+                        let pma = tables::build_cw_pma::<u32>(&e32).unwrap();
+                        unsafe { cv::next_state_leftmost(&pma, t.idx[k], char::from_u32(c).unwrap()) }
+                    }
+                };
+                let gotk = inv.get(&tslot).copied();
+                if gotk != Some(r.lm_next[k][a] as usize) {
+                    bad += 1;
+                    println!("NEXT {} node {:?} + {}: got {:?} want {:?}", e.name, r.nodes[k], c,
+                        gotk.map(|g| r.nodes[g].clone()), r.nodes[r.lm_next[k][a] as usize]);
+                }
+            }
+        }
+    }
+    println!("speccheck: {n} leftmost automata, {bad} disagreements");
 }
